@@ -153,7 +153,7 @@ PROPS["C04"] = {
     "level_note": 'Outside: text requests/responses and headers (length limits of header.go/body.go), WebSocket carrier, conn.Conn dispatch, payloads longer than the bounds.',
     "runs": [
         R("frames-allchunks", "pkg/base", "pkg/base", ["ZzC04Frames"], flags={"concoff": True}, quick_params={"P": 1}, thorough_params={"P": 2}),
-        R("frames-bytewise", "pkg/base", "pkg/base", ["ZzC04Frames"], flags={"concoff": True}, quick_params={"P": 12, "CHUNK1": 1}, thorough_params={"P": 40, "CHUNK1": 1}),
+        R("frames-bytewise", "pkg/base", "pkg/base", ["ZzC04Frames"], flags={"concoff": True}, quick_params={"P": 12, "CHUNK1": 1}, thorough_params={"P": 20, "CHUNK1": 1}),
         R("read-limited", "pkg/base", "pkg/base", ["ZzC04ReadLimited"], flags={"concoff": True}, quick_params={"P": 6}, thorough_params={"P": 8}),
         R("base64-stream", "internal/base64streamreader", "internal/base64streamreader", ["ZzC04Base64Stream"], flags={"concoff": True}, quick_params={"P": 2}, thorough_params={"P": 3}),
     ],
